@@ -387,8 +387,8 @@ impl_pt!(P8E0, P8, "P8E0", u8);
 impl_pt!(P16E1, P16, "P16E1", u16);
 impl_pt!(P32E2, P32, "P32E2", u32);
 
-/// quire trait for monitors: forwards to inherent methods of the three quires
-pub trait QT: Send + Sync + 'static {
+/// quire trait for monitors: forwards to inherent methods / operator impls of the three quires
+pub trait QT: Send + Sync + 'static + Sized {
     type P: PT;
     const NAME: &'static str;
     const TOTAL_BITS: u32;
@@ -397,161 +397,219 @@ pub trait QT: Send + Sync + 'static {
     /// little-endian 64-bit limbs of the bit image
     fn limbs_le(&self) -> Vec<u64>;
     fn from_limbs_le(l: &[u64]) -> Self;
+    fn dup(&self) -> Self {
+        Self::from_limbs_le(&self.limbs_le())
+    }
     fn i_is_zero(&self) -> bool;
     fn i_is_nar(&self) -> bool;
     fn i_to_posit(&self) -> Self::P;
     fn i_from_posit(p: Self::P) -> Self;
+    fn from_trait(p: Self::P) -> Self;
     fn i_clear(&mut self);
     fn i_neg(&mut self);
+    fn i_into_two(self) -> (Self::P, Self::P);
+    fn i_into_three(self) -> (Self::P, Self::P, Self::P);
+    // accumulate spellings
     fn add_prod(&mut self, a: Self::P, b: Self::P);
     fn sub_prod(&mut self, a: Self::P, b: Self::P);
     fn add_one(&mut self, a: Self::P);
     fn sub_one(&mut self, a: Self::P);
+    fn m_add_product(&mut self, a: Self::P, b: Self::P);
+    fn m_sub_product(&mut self, a: Self::P, b: Self::P);
+    fn add_t2(&mut self, a: Self::P, b: Self::P, c: Self::P);
+    fn sub_t2(&mut self, a: Self::P, b: Self::P, c: Self::P);
+    fn add_t3(&mut self, a: Self::P, b: Self::P, c: Self::P, d: Self::P);
+    fn add_pairs(&mut self, a: Self::P, b: Self::P, c: Self::P, d: Self::P);
+    fn sub_pairs(&mut self, a: Self::P, b: Self::P, c: Self::P, d: Self::P);
+    fn add_arr(&mut self, a: Self::P, v: &[Self::P]);
+    fn sub_arr(&mut self, a: Self::P, v: &[Self::P]);
+    // Quire trait spellings (C17)
+    fn t_init() -> Self;
+    fn t_from_posit(p: Self::P) -> Self;
+    fn t_to_posit(&self) -> Self::P;
+    fn t_is_zero(&self) -> bool;
+    fn t_is_nar(&self) -> bool;
+    fn t_add_product(&mut self, a: Self::P, b: Self::P);
+    fn t_sub_product(&mut self, a: Self::P, b: Self::P);
+    fn t_clear(&mut self);
+    fn t_neg(&mut self);
+    fn t_bits_roundtrip(&self) -> Self;
+    /// the quire type reached through AssociatedQuire of the posit type
+    fn assoc_init_limbs() -> Vec<u64>;
 }
 
-impl QT for Q8E0 {
-    type P = P8E0;
-    const NAME: &'static str = "Q8E0";
-    const TOTAL_BITS: u32 = 32;
-    const FRAC_BITS: u32 = 12;
-    fn init() -> Self {
-        Q8E0::init()
-    }
-    fn limbs_le(&self) -> Vec<u64> {
-        vec![self.to_bits() as u64]
-    }
-    fn from_limbs_le(l: &[u64]) -> Self {
-        Q8E0::from_bits(l[0] as u32)
-    }
-    fn i_is_zero(&self) -> bool {
-        Q8E0::is_zero(self)
-    }
-    fn i_is_nar(&self) -> bool {
-        Q8E0::is_nar(self)
-    }
-    fn i_to_posit(&self) -> P8E0 {
-        Q8E0::to_posit(self)
-    }
-    fn i_from_posit(p: P8E0) -> Self {
-        Q8E0::from_posit(p)
-    }
-    fn i_clear(&mut self) {
-        Q8E0::clear(self)
-    }
-    fn i_neg(&mut self) {
-        Q8E0::neg(self)
-    }
-    fn add_prod(&mut self, a: P8E0, b: P8E0) {
-        *self += (a, b)
-    }
-    fn sub_prod(&mut self, a: P8E0, b: P8E0) {
-        *self -= (a, b)
-    }
-    fn add_one(&mut self, a: P8E0) {
-        *self += a
-    }
-    fn sub_one(&mut self, a: P8E0) {
-        *self -= a
-    }
+macro_rules! impl_qt {
+    ($Q:ty, $P:ty, $name:literal, $total:expr, $frac:expr, $to_limbs:expr, $from_limbs:expr) => {
+        impl QT for $Q {
+            type P = $P;
+            const NAME: &'static str = $name;
+            const TOTAL_BITS: u32 = $total;
+            const FRAC_BITS: u32 = $frac;
+            fn init() -> Self {
+                <$Q>::init()
+            }
+            fn limbs_le(&self) -> Vec<u64> {
+                let f: fn(&$Q) -> Vec<u64> = $to_limbs;
+                f(self)
+            }
+            fn from_limbs_le(l: &[u64]) -> Self {
+                let f: fn(&[u64]) -> $Q = $from_limbs;
+                f(l)
+            }
+            fn i_is_zero(&self) -> bool {
+                <$Q>::is_zero(self)
+            }
+            fn i_is_nar(&self) -> bool {
+                <$Q>::is_nar(self)
+            }
+            fn i_to_posit(&self) -> $P {
+                <$Q>::to_posit(self)
+            }
+            fn i_from_posit(p: $P) -> Self {
+                <$Q>::from_posit(p)
+            }
+            fn from_trait(p: $P) -> Self {
+                <$Q as From<$P>>::from(p)
+            }
+            fn i_clear(&mut self) {
+                <$Q>::clear(self)
+            }
+            fn i_neg(&mut self) {
+                <$Q>::neg(self)
+            }
+            fn i_into_two(self) -> ($P, $P) {
+                <$Q>::into_two_posits(self)
+            }
+            fn i_into_three(self) -> ($P, $P, $P) {
+                <$Q>::into_three_posits(self)
+            }
+            fn add_prod(&mut self, a: $P, b: $P) {
+                *self += (a, b)
+            }
+            fn sub_prod(&mut self, a: $P, b: $P) {
+                *self -= (a, b)
+            }
+            fn add_one(&mut self, a: $P) {
+                *self += a
+            }
+            fn sub_one(&mut self, a: $P) {
+                *self -= a
+            }
+            fn m_add_product(&mut self, a: $P, b: $P) {
+                <$Q>::add_product(self, a, b)
+            }
+            fn m_sub_product(&mut self, a: $P, b: $P) {
+                <$Q>::sub_product(self, a, b)
+            }
+            fn add_t2(&mut self, a: $P, b: $P, c: $P) {
+                *self += (a, (b, c))
+            }
+            fn sub_t2(&mut self, a: $P, b: $P, c: $P) {
+                *self -= (a, (b, c))
+            }
+            fn add_t3(&mut self, a: $P, b: $P, c: $P, d: $P) {
+                *self += (a, (b, c, d))
+            }
+            fn add_pairs(&mut self, a: $P, b: $P, c: $P, d: $P) {
+                *self += ((a, b), (c, d))
+            }
+            fn sub_pairs(&mut self, a: $P, b: $P, c: $P, d: $P) {
+                *self -= ((a, b), (c, d))
+            }
+            fn add_arr(&mut self, a: $P, v: &[$P]) {
+                match v.len() {
+                    1 => *self += (a, [v[0]]),
+                    2 => *self += (a, [v[0], v[1]]),
+                    3 => *self += (a, [v[0], v[1], v[2]]),
+                    _ => *self += (a, [v[0], v[1], v[2], v[3]]),
+                }
+            }
+            fn sub_arr(&mut self, a: $P, v: &[$P]) {
+                match v.len() {
+                    1 => *self -= (a, [v[0]]),
+                    2 => *self -= (a, [v[0], v[1]]),
+                    3 => *self -= (a, [v[0], v[1], v[2]]),
+                    _ => *self -= (a, [v[0], v[1], v[2], v[3]]),
+                }
+            }
+            fn t_init() -> Self {
+                <$Q as softposit::Quire<$P>>::init()
+            }
+            fn t_from_posit(p: $P) -> Self {
+                <$Q as softposit::Quire<$P>>::from_posit(p)
+            }
+            fn t_to_posit(&self) -> $P {
+                <$Q as softposit::Quire<$P>>::to_posit(self)
+            }
+            fn t_is_zero(&self) -> bool {
+                <$Q as softposit::Quire<$P>>::is_zero(self)
+            }
+            fn t_is_nar(&self) -> bool {
+                <$Q as softposit::Quire<$P>>::is_nar(self)
+            }
+            fn t_add_product(&mut self, a: $P, b: $P) {
+                <$Q as softposit::Quire<$P>>::add_product(self, a, b)
+            }
+            fn t_sub_product(&mut self, a: $P, b: $P) {
+                <$Q as softposit::Quire<$P>>::sub_product(self, a, b)
+            }
+            fn t_clear(&mut self) {
+                <$Q as softposit::Quire<$P>>::clear(self)
+            }
+            fn t_neg(&mut self) {
+                <$Q as softposit::Quire<$P>>::neg(self)
+            }
+            fn t_bits_roundtrip(&self) -> Self {
+                <$Q as softposit::Quire<$P>>::from_bits(<$Q as softposit::Quire<$P>>::to_bits(self))
+            }
+            fn assoc_init_limbs() -> Vec<u64> {
+                let q = <<$P as softposit::AssociatedQuire<$P>>::Q as softposit::Quire<$P>>::init();
+                // AssociatedQuire::Q must be this very type
+                let q: $Q = q;
+                q.limbs_le()
+            }
+        }
+    };
 }
 
-impl QT for Q16E1 {
-    type P = P16E1;
-    const NAME: &'static str = "Q16E1";
-    const TOTAL_BITS: u32 = 128;
-    const FRAC_BITS: u32 = 56;
-    fn init() -> Self {
-        Q16E1::init()
-    }
-    fn limbs_le(&self) -> Vec<u64> {
-        let b = self.to_bits();
+impl_qt!(
+    Q8E0,
+    P8E0,
+    "Q8E0",
+    32,
+    12,
+    |q| vec![q.to_bits() as u64],
+    |l| Q8E0::from_bits(l[0] as u32)
+);
+impl_qt!(
+    Q16E1,
+    P16E1,
+    "Q16E1",
+    128,
+    56,
+    |q| {
+        let b = q.to_bits();
         vec![b as u64, (b >> 64) as u64]
-    }
-    fn from_limbs_le(l: &[u64]) -> Self {
-        Q16E1::from_bits(l[0] as u128 | ((l[1] as u128) << 64))
-    }
-    fn i_is_zero(&self) -> bool {
-        Q16E1::is_zero(self)
-    }
-    fn i_is_nar(&self) -> bool {
-        Q16E1::is_nar(self)
-    }
-    fn i_to_posit(&self) -> P16E1 {
-        Q16E1::to_posit(self)
-    }
-    fn i_from_posit(p: P16E1) -> Self {
-        Q16E1::from_posit(p)
-    }
-    fn i_clear(&mut self) {
-        Q16E1::clear(self)
-    }
-    fn i_neg(&mut self) {
-        Q16E1::neg(self)
-    }
-    fn add_prod(&mut self, a: P16E1, b: P16E1) {
-        *self += (a, b)
-    }
-    fn sub_prod(&mut self, a: P16E1, b: P16E1) {
-        *self -= (a, b)
-    }
-    fn add_one(&mut self, a: P16E1) {
-        *self += a
-    }
-    fn sub_one(&mut self, a: P16E1) {
-        *self -= a
-    }
-}
-
-impl QT for Q32E2 {
-    type P = P32E2;
-    const NAME: &'static str = "Q32E2";
-    const TOTAL_BITS: u32 = 512;
-    const FRAC_BITS: u32 = 240;
-    fn init() -> Self {
-        Q32E2::init()
-    }
-    fn limbs_le(&self) -> Vec<u64> {
+    },
+    |l| Q16E1::from_bits(l[0] as u128 | ((l[1] as u128) << 64))
+);
+impl_qt!(
+    Q32E2,
+    P32E2,
+    "Q32E2",
+    512,
+    240,
+    |q| {
         // to_bits() is most-significant limb first
-        let b = self.to_bits();
-        let mut v: Vec<u64> = b.to_vec();
+        let mut v: Vec<u64> = q.to_bits().to_vec();
         v.reverse();
         v
-    }
-    fn from_limbs_le(l: &[u64]) -> Self {
+    },
+    |l| {
         let mut a = [0u64; 8];
         for i in 0..8 {
             a[i] = l[7 - i];
         }
         Q32E2::from_bits(a)
     }
-    fn i_is_zero(&self) -> bool {
-        Q32E2::is_zero(self)
-    }
-    fn i_is_nar(&self) -> bool {
-        Q32E2::is_nar(self)
-    }
-    fn i_to_posit(&self) -> P32E2 {
-        Q32E2::to_posit(self)
-    }
-    fn i_from_posit(p: P32E2) -> Self {
-        Q32E2::from_posit(p)
-    }
-    fn i_clear(&mut self) {
-        Q32E2::clear(self)
-    }
-    fn i_neg(&mut self) {
-        Q32E2::neg(self)
-    }
-    fn add_prod(&mut self, a: P32E2, b: P32E2) {
-        *self += (a, b)
-    }
-    fn sub_prod(&mut self, a: P32E2, b: P32E2) {
-        *self -= (a, b)
-    }
-    fn add_one(&mut self, a: P32E2) {
-        *self += a
-    }
-    fn sub_one(&mut self, a: P32E2) {
-        *self -= a
-    }
-}
+);
